@@ -64,7 +64,7 @@ pub fn gen(a: &Args) -> i32 {
                 images += 1;
                 st.bump("img_in_rotate");
             } else if x < 67 {
-                writeln!(out, "flush@{}", r.range(1, 8)).unwrap();
+                writeln!(out, "flush@{}", r.range(1, 12)).unwrap();
                 images += 1;
                 st.bump("img_in_flush");
             } else if x < 82 {
